@@ -1,10 +1,10 @@
 SPECIFICATION Spec
 CONSTANTS
   Files = {1}
-  Payloads <- Pay3
+  Payloads <- PayQuick
   Deadlines = {1, 3}
   MinNow = 2
-  MaxNow = 2
+  MaxNow = 3
   MaxSaves = 3
   MaxPlants = 0
   SS = 2
